@@ -7,6 +7,7 @@ mod libgen;
 mod rng;
 mod sx;
 
+mod c06;
 mod c15;
 mod c16;
 
@@ -94,6 +95,7 @@ fn main() {
     // panics inside the code under test are caught per case; silence the default hook's noise
     std::panic::set_hook(Box::new(|_| {}));
     match group.as_str() {
+        "c06" => c06::run(&args, &mut out),
         "c15" => c15::run(&args, &mut out),
         "c16" => c16::run(&args, &mut out),
         other => {
